@@ -28,7 +28,9 @@ def handle (c : Case) : Res :=
   let kindTags := (List.range 5).filterMap fun (k : Nat) =>
     if kinds.any (· == Int.ofNat k) then some s!"job={kindName (Int.ofNat k)}" else none
   let tags := [s!"mode={mode}", s!"threads={nthreads}", s!"tuned={c.p "tuned"}"] ++ kindTags ++
-    (if infos.any (fun i => i > 0) then ["some-info>0"] else [])
+    (if infos.any (fun i => i > 0) then ["some-info>0"] else []) ++
+    (if c.pNat "userwork" > 0 then [s!"{mode}-userwork"] else []) ++
+    (if c.pNat "userwork" > 0 ∧ c.pNat "symm" > 0 then [s!"{mode}-userwork-symm"] else [])
   let njobs := kinds.size
   -- malformed block
   if njobs = 0 ∨ refL.size ≠ njobs ∨ refH.size ≠ 2 * njobs then Res.skip "malformed threads case" else
